@@ -1,4 +1,304 @@
 package facts
 
-// extractMore holds the structural extractors (dispatch skeleton, panic skeleton, stub interface…).
-func extractMore(f *Facts) {}
+import (
+	"go/ast"
+	"go/parser"
+	"go/token"
+	"os"
+	"path/filepath"
+	"sort"
+	"strconv"
+	"strings"
+)
+
+// extractMore holds the structural extractors (dispatch skeleton, stub interface, …).
+func extractMore(f *Facts) {
+	extractInvokeSwitch(f)
+	extractDisabledSites(f)
+	extractQueryStub(f)
+	extractStubInterface(f)
+}
+
+// extractStubInterface parses shim.ChaincodeStubInterface from the module cache copy named in go.mod.
+func extractStubInterface(f *Facts) {
+	gomod, err := os.ReadFile(filepath.Join(f.repo, "go.mod"))
+	if err != nil {
+		f.fail("go.mod: %v", err)
+		return
+	}
+	ver := ""
+	for _, l := range strings.Split(string(gomod), "\n") {
+		fs := strings.Fields(l)
+		if len(fs) >= 2 && fs[0] == "github.com/hyperledger/fabric-chaincode-go" {
+			ver = fs[1]
+		}
+	}
+	cache := os.Getenv("GOMODCACHE")
+	if cache == "" {
+		home, _ := os.UserHomeDir()
+		gp := os.Getenv("GOPATH")
+		if gp == "" {
+			gp = filepath.Join(home, "go")
+		}
+		cache = filepath.Join(gp, "pkg", "mod")
+	}
+	path := filepath.Join(cache, "github.com", "hyperledger", "fabric-chaincode-go@"+ver, "shim", "interfaces.go")
+	a, err := parser.ParseFile(f.fset, path, nil, 0)
+	if err != nil {
+		f.fail("shim interfaces.go (%s): %v", path, err)
+		return
+	}
+	var methods []string
+	for _, d := range a.Decls {
+		g, ok := d.(*ast.GenDecl)
+		if !ok {
+			continue
+		}
+		for _, s := range g.Specs {
+			ts, ok := s.(*ast.TypeSpec)
+			if !ok || ts.Name.Name != "ChaincodeStubInterface" {
+				continue
+			}
+			it, ok := ts.Type.(*ast.InterfaceType)
+			if !ok {
+				continue
+			}
+			for _, m := range it.Methods.List {
+				for _, n := range m.Names {
+					methods = append(methods, n.Name)
+				}
+			}
+		}
+	}
+	if len(methods) == 0 {
+		f.fail("shim: ChaincodeStubInterface not found")
+	}
+	sort.Strings(methods)
+	f.Lists["stubInterfaceMethods"] = methods
+}
+
+// stringConsts collects package-level string constants of a file.
+func (f *Facts) stringConsts(rel string) map[string]string {
+	out := map[string]string{}
+	a := f.File(rel)
+	if a == nil {
+		return out
+	}
+	for _, d := range a.Decls {
+		g, ok := d.(*ast.GenDecl)
+		if !ok || g.Tok != token.CONST {
+			continue
+		}
+		for _, s := range g.Specs {
+			vs := s.(*ast.ValueSpec)
+			for i, n := range vs.Names {
+				if i < len(vs.Values) {
+					if bl, ok := vs.Values[i].(*ast.BasicLit); ok && bl.Kind == token.STRING {
+						if v, err := strconv.Unquote(bl.Value); err == nil {
+							out[n.Name] = v
+						}
+					}
+				}
+			}
+		}
+	}
+	return out
+}
+
+func containsCall(n ast.Node, name string) bool {
+	found := false
+	ast.Inspect(n, func(x ast.Node) bool {
+		if c, ok := x.(*ast.CallExpr); ok {
+			switch fn := c.Fun.(type) {
+			case *ast.SelectorExpr:
+				if fn.Sel.Name == name {
+					found = true
+				}
+			case *ast.Ident:
+				if fn.Name == name {
+					found = true
+				}
+			}
+		}
+		return !found
+	})
+	return found
+}
+
+func calledMethods(n ast.Node) []string {
+	var out []string
+	ast.Inspect(n, func(x ast.Node) bool {
+		if c, ok := x.(*ast.CallExpr); ok {
+			if fn, ok := c.Fun.(*ast.SelectorExpr); ok {
+				out = append(out, fn.Sel.Name)
+			}
+		}
+		return true
+	})
+	return out
+}
+
+// extractInvokeSwitch reads the function-name switch of Chaincode.Invoke: cases in source order,
+// which of them are guarded by ValidateSKI (directly or in the handler they call), and which end
+// the invocation (return) rather than fall through to the method lookup.
+func extractInvokeSwitch(f *Facts) {
+	const rel = "core/cc_core_init_invoke.go"
+	fd := f.FuncDecl(rel, "Chaincode", "Invoke")
+	if fd == nil {
+		return
+	}
+	consts := f.stringConsts("core/cc_core.go")
+	var sw *ast.SwitchStmt
+	ast.Inspect(fd.Body, func(n ast.Node) bool {
+		if s, ok := n.(*ast.SwitchStmt); ok && sw == nil {
+			if id, ok := s.Tag.(*ast.Ident); ok && id.Name == "function" {
+				sw = s
+			}
+		}
+		return sw == nil
+	})
+	if sw == nil {
+		f.fail("%s: switch on `function` not found in Invoke", rel)
+		return
+	}
+	var order, guarded, returning []string
+	for _, st := range sw.Body.List {
+		cc := st.(*ast.CaseClause)
+		var names []string
+		for _, e := range cc.List {
+			id, ok := e.(*ast.Ident)
+			if !ok {
+				f.fail("%s: non-identifier case in Invoke switch", rel)
+				continue
+			}
+			v, ok := consts[id.Name]
+			if !ok {
+				f.fail("%s: case %s is not a string constant of cc_core.go", rel, id.Name)
+				continue
+			}
+			names = append(names, v)
+		}
+		body := &ast.BlockStmt{List: cc.Body}
+		g := containsCall(body, "ValidateSKI")
+		if !g {
+			for _, m := range calledMethods(body) {
+				for _, file := range []string{"core/cc_core.go", rel} {
+					if a := f.File(file); a != nil {
+						for _, d := range a.Decls {
+							if hd, ok := d.(*ast.FuncDecl); ok && hd.Name.Name == m && hd.Recv != nil && containsCall(hd.Body, "ValidateSKI") {
+								g = true
+							}
+						}
+					}
+				}
+			}
+		}
+		ret := false
+		if len(cc.Body) > 0 {
+			_, ret = cc.Body[len(cc.Body)-1].(*ast.ReturnStmt)
+		}
+		for _, n := range names {
+			order = append(order, n)
+			if g {
+				guarded = append(guarded, n)
+			}
+			if ret {
+				returning = append(returning, n)
+			}
+		}
+	}
+	f.Lists["invokeCaseOrder"] = order
+	f.Lists["robotGuardedFns"] = guarded
+	f.Lists["returningCases"] = returning
+	// the method lookup and the disabled test come after the switch, before routing
+	after := false
+	seenDisabled, seenRoute := false, false
+	for _, st := range fd.Body.List {
+		if st == ast.Stmt(sw) {
+			after = true
+			continue
+		}
+		if !after {
+			continue
+		}
+		if containsCall(st, "isMethodDisabled") && !seenRoute {
+			seenDisabled = true
+		}
+		if containsCall(st, "noBatchHandler") || containsCall(st, "BatchHandler") {
+			seenRoute = true
+		}
+	}
+	if seenDisabled {
+		f.Nats["invokeDisabledTestBeforeRouting"] = 1
+	} else {
+		f.Nats["invokeDisabledTestBeforeRouting"] = 0
+	}
+}
+
+// extractDisabledSites lists the functions of package core that call isMethodDisabled on *Chaincode.
+func extractDisabledSites(f *Facts) {
+	var sites []string
+	for _, rel := range []string{"core/cc_core_init_invoke.go", "core/task_executor.go", "core/cc_core.go", "core/cc_batch.go"} {
+		a := f.File(rel)
+		if a == nil {
+			continue
+		}
+		for _, d := range a.Decls {
+			if fd, ok := d.(*ast.FuncDecl); ok && fd.Body != nil && fd.Name.Name != "isMethodDisabled" && containsCall(fd.Body, "isMethodDisabled") {
+				sites = append(sites, fd.Name.Name)
+			}
+		}
+	}
+	sort.Strings(sites)
+	f.Lists["disabledTestSites"] = sites
+}
+
+// extractQueryStub lists the methods queryStub overrides and the methods of the shim stub
+// interface (from the module cache copy the repository builds against).
+func extractQueryStub(f *Facts) {
+	a := f.File("core/query_stub.go")
+	if a == nil {
+		return
+	}
+	var over []string
+	for _, d := range a.Decls {
+		if fd, ok := d.(*ast.FuncDecl); ok && fd.Recv != nil && len(fd.Recv.List) == 1 {
+			t := fd.Recv.List[0].Type
+			if st, ok := t.(*ast.StarExpr); ok {
+				t = st.X
+			}
+			if id, ok := t.(*ast.Ident); ok && id.Name == "queryStub" {
+				// an override is inert iff its body is a single `return nil`
+				inert := false
+				if len(fd.Body.List) == 1 {
+					if r, ok := fd.Body.List[0].(*ast.ReturnStmt); ok && len(r.Results) == 1 {
+						if id, ok := r.Results[0].(*ast.Ident); ok && id.Name == "nil" {
+							inert = true
+						}
+					}
+				}
+				if inert {
+					over = append(over, fd.Name.Name)
+				} else {
+					f.fail("core/query_stub.go: override %s is not a bare `return nil`", fd.Name.Name)
+				}
+			}
+		}
+	}
+	sort.Strings(over)
+	f.Lists["queryStubInertOverrides"] = over
+	// where is queryStub installed?
+	var wrapSites []string
+	for _, rel := range []string{"core/cc_core.go", "core/task_executor.go", "core/cc_batch.go", "core/cc_core_init_invoke.go"} {
+		if b := f.File(rel); b != nil {
+			for _, d := range b.Decls {
+				if fd, ok := d.(*ast.FuncDecl); ok && fd.Body != nil && containsCall(fd.Body, "newQueryStub") {
+					wrapSites = append(wrapSites, fd.Name.Name)
+				}
+			}
+		}
+	}
+	sort.Strings(wrapSites)
+	f.Lists["queryStubWrapSites"] = wrapSites
+	_ = strings.Join
+}
